@@ -91,6 +91,45 @@ def add_obligations(rep, prop):
     rep.functions = sorted(set(rep.functions) | set(direct))
 
 
+OPTION_NAMES = {"maxNesting", "html", "linkify", "typographer", "quotes", "xhtmlOut", "breaks", "langPrefix", "highlight", "inline_definitions", "store_labels"}
+
+
+def add_config_time_obligations(rep, prop):
+    """C10 (routes): an option set by the constructor, by item assignment or by attribute assignment must be
+    indistinguishable. The three routes write the same backing key (ROUTE obligations); this holds for the parser only if
+    every option is read when it is *used* - a configuration-time function that looks at an option value (and, say, flips
+    rules accordingly) freezes it for one route and not for the others. Obligation: no function of markdown_it.main reads an
+    option value."""
+    direct, _ = option_reads()
+    for f, rs in sorted(direct.items()):
+        if not f.startswith("markdown_it.main."):
+            continue
+        bad = sorted(rs & OPTION_NAMES)
+        rep.obs.append(Ob(oid=f"{prop}/{f}/READS/no-option-read-at-configuration-time", kind="READS", func=f, backend="reads", verdict="discharged" if not bad else "failed",
+                          solver="syntactic read set", info="reads no option value (options take effect where they are used)" if not bad else f"reads option(s) {bad} at configuration time"))
+        if bad:
+            w = None
+            try:
+                from markdown_it import MarkdownIt
+
+                for preset in ("default", "commonmark", "zero"):
+                    for opt, val, doc in (("html", True, "<div>\nx\n</div>\n\na <b>c</b>\n"), ("html", False, "<div>\nx\n</div>\n\na <b>c</b>\n"), ("typographer", True, "(c) \"q\" ..."), ("linkify", False, "a"), ("breaks", True, "a\nb")):
+                        try:
+                            a = MarkdownIt(preset, {opt: val})
+                            b = MarkdownIt(preset)
+                            b.options[opt] = val
+                            if a.render(doc) != b.render(doc):
+                                w = {"preset": preset, "option": opt, "value": val, "doc": doc, "constructor_route": a.render(doc), "item_assignment_route": b.render(doc)}
+                                break
+                        except Exception:  # noqa: BLE001
+                            continue
+                    if w:
+                        break
+            except Exception:  # noqa: BLE001
+                pass
+            rep.replays[f"{prop}/{f}/READS/no-option-read-at-configuration-time"] = {"lifted": {"arguments": w} if w else {}, "observed": {"outcome": "the two routes render differently" if w else "no distinguishing document among the candidates"}, "replayed": bool(w)}
+
+
 def add_inline_call_obligation(rep, prop):
     """ORDER/inline-call-args: the core `inline` rule hands exactly (content, md, env, children) to ParserInline.parse, in
     both modes - so inline parsing is a function of the content, the configuration and env only (C18)."""
